@@ -192,6 +192,16 @@ func (s *nestedSpace) Ops(w *World) []Op {
 						ops = append(ops, Op{K: "insert", C: c.Serial, I: i, V: "h"})
 					}
 				}
+				if s.detach {
+					// rejected requests whose value is a (detached) container: the value must stay untouched and
+					// usable, and the container that refused it must not remember it
+					for _, x := range detached {
+						if x != c && !isAncestor(x, c) {
+							ops = append(ops, Op{K: "set", C: c.Serial, I: uint64(n), V: "@", X: x.Serial},
+								Op{K: "insert", C: c.Serial, I: uint64(n) + 1, V: "@", X: x.Serial})
+						}
+					}
+				}
 			}
 		}
 		twoh := s.spec.Extra["twoh"] == 1
